@@ -5,7 +5,7 @@ SPEC = dict(
     lean_targets=["SwayVerif.Props.C28"], audit="SwayVerif/Audit/C28.lean",
     theorems=["read_after_write", "write_frame", "write_frame_other_slots", "storage_vec_refines_list", "storage_vec_init",
               "storage_map_refines_fun", "storage_slice_refines_bytes", "op_footprints", "fields_noninterference", "C28_vec_history_partial"],
-    steps=[dict(bin="sv_c28", area="c28", n_quick=240, n_thorough=1440, corpus="corpus/c28.txt",
+    steps=[dict(bin="sv_c28", area="c28", n_quick=240, n_thorough=1200, corpus="corpus/c28.txt",
                 dist_keys=("reverted", "spaced", "fieldsTouched", "opkinds"), timeout=3000,
                 nontrivial=lambda case, impl, kv: int(kv.get("nops", "0")) >= 5)],
     rule="one contract with 9 collection fields (StorageVec<u64> x2 — one in a namespace, StorageVec<(u64,u64,u64)> whose "
